@@ -3,6 +3,7 @@
 from __future__ import annotations
 
 import itertools
+from fractions import Fraction
 
 from vf.guard import call as gcall, too_many_hangs
 from vf.core import Job, indexed_chunk, new_result, viol
@@ -23,9 +24,11 @@ A4 = (-1, 0, 1, 2)
 A6 = (-2, -1, 0, 0.5, 1, 2)
 A3 = (-1, 0, 2)
 A2 = (0, 1)
+TINY = (0, 2.0**-40, 1)  # a dyadic entry far below any sensible tolerance: optimality is exact, not "within 1e-9"
 
 
 def best(matrix, r, c, minimize):
+    matrix = [[Fraction(x) for x in row] for row in matrix]  # entries are integers or dyadic rationals: exact
     vals = []
     if r <= c:
         for cols in itertools.permutations(range(c), r):
@@ -58,11 +61,11 @@ def judge(matrix, minimize):
     elif len(used) != min(r, c):
         errs.append(("pair_count", f"assignment {a} has {len(used)} pairs, expected {min(r, c)}"))
     else:
-        tot = sum(matrix[i][a[i]] for i in range(r) if a[i] != -1)
-        if abs(tot - res.objective) > 1e-9:
-            errs.append(("objective_not_sum", f"objective {res.objective} but chosen entries sum to {tot} (assignment {a})"))
-        if abs(tot - opt) > 1e-9:
-            errs.append(("not_optimal", f"assignment {a} costs {tot}, optimum is {opt} ({'min' if minimize else 'max'})"))
+        tot = sum(Fraction(matrix[i][a[i]]) for i in range(r) if a[i] != -1)
+        if abs(float(tot) - res.objective) > 1e-9:
+            errs.append(("objective_not_sum", f"objective {res.objective} but chosen entries sum to {float(tot)} (assignment {a})"))
+        if tot != opt:  # exact: the optimum over all matchings, not an approximation of it
+            errs.append(("not_optimal", f"assignment {a} costs {float(tot)}, optimum is {float(opt)} ({'min' if minimize else 'max'}; off by {float(abs(tot - opt)):.3g})"))
     if not res.ok:
         errs.append(("status", f"status {res.status.name}"))
     return errs, ("ok:" + ",".join(map(str, a)) if not errs else errs[0][0]), nontrivial
@@ -167,6 +170,8 @@ def jobs(tier, seed):
     for rc in ((2, 3), (3, 2), (2, 4), (4, 2)):
         js.append(_job(*rc, A4))
     js.append(_job(4, 4, A2))
+    for rc in ((2, 2), (2, 3), (3, 2), (3, 3)):
+        js.append(_job(*rc, TINY, f"{rc[0]}x{rc[1]}_over_0_2^-40_1"))
     nb = 2 * (3**2 + 3**2 + 3**6 + 3**6 + 3**3 + 3**3)
     js.append(Job("call_history_pairs", len(HIST_FIRST) * 2 * nb, _history_chunk, None, describe="a square solve followed by a rectangular solve of the same padded size; the second call is judged on its own (results must not depend on earlier calls)"))
     big = [(3, 4, A3), (4, 3, A3)]
